@@ -1,33 +1,34 @@
 #!/usr/bin/env python3
-"""collect verified seeds: [WT_LETTER=D ORIGIN_NOTE=..] ./tools_collect3.py <suffix> <verify-log> Cxx ...  (scratch-copy based; /repo untouched)"""
+"""collect verified seeds (SUB=a|b: micro-mutation rounds keep two per worktree in seed/a, seed/b): [WT_LETTER=D ORIGIN_NOTE=..] ./tools_collect3.py <suffix> <verify-log> Cxx ...  (scratch-copy based; /repo untouched)"""
 import json, os, shutil, sys
 sys.path.insert(0, os.path.join(os.path.dirname(os.path.abspath(__file__)), "rules"))
 import tools_regress as TR
 suffix, vlog = sys.argv[1], sys.argv[2]
 WL = os.environ.get("WT_LETTER", "C")
+SUB = os.environ.get("SUB", "")
 NOTE = os.environ.get("ORIGIN_NOTE", "round 3: asked to hide the defect inside a plausible refactoring")
 logs = {l.split(" | ")[0].strip(): l.strip() for l in open(vlog) if " | " in l}
 from concurrent.futures import ProcessPoolExecutor
 jobs = []
 for p in sys.argv[3:]:
-    src = "/tmp/wt/%s%s/seed" % (p, WL)
-    dst = "/verif/seeded/%s-%s" % (p, suffix)
+    src = "/tmp/wt/%s%s/seed%s" % (p, WL, ("/" + SUB) if SUB else "")
+    dst = "/verif/seeded/%s-%s%s" % (p, suffix, SUB)
     os.makedirs(dst, exist_ok=True)
     for f in ("patch.diff", "demo.diff"):
         shutil.copy(os.path.join(src, f), os.path.join(dst, f))
-    jobs.append(("seed", "%s-%s" % (p, suffix), os.path.join(dst, "patch.diff"), TR.PROPS, True))
+    jobs.append(("seed", "%s-%s%s" % (p, suffix, SUB), os.path.join(dst, "patch.diff"), TR.PROPS, True))
 TR.engine.facts_path(True)
 with ProcessPoolExecutor(max_workers=10) as ex:
     for (kind, name, st, why, fired, wall), j in zip(ex.map(TR.job, jobs), jobs):
         p = name[:3]
-        am = json.load(open("/tmp/wt/%s%s/seed/meta.json" % (p, WL)))
+        am = json.load(open("/tmp/wt/%s%s/seed%s/meta.json" % (p, WL, ("/" + SUB) if SUB else "")))
         meta = {
             "property": p,
             "origin": "independent sub-agent given only the property text and a scratch worktree (nothing from /verif); " + NOTE,
             "summary": am.get("summary"), "needs_to_manifest": am.get("needs"), "why_tests_pass": am.get("why_tests_pass"),
             "confirmed_by_me": {"worktree": "the sub-agent's scratch worktree /tmp/wt/%s%s reset to HEAD (removed afterwards)" % (p, WL),
                                 "commands": ["git apply patch.diff && cargo test --offline", "git apply demo.diff && cargo test --offline", "git apply patch.diff demo.diff && cargo test --offline"],
-                                "results": logs.get(p + WL, "")[:1500]},
+                                "results": logs.get(p + WL + (("-" + SUB) if SUB else ""), "")[:1500]},
             "checks_run": "all twenty property modules on a scratch copy of /repo's sources with patch.diff applied (tools_regress.job); /repo untouched",
             "checks_firing": {k: v[0] for k, v in fired.items()},
             "first_messages": {k: v[1] for k, v in fired.items()},
